@@ -188,7 +188,7 @@ class ProgGen:
         k = r.random()
         if k < 0.08:
             # omitted sides: the default-sides expression (push.def_expr reads the die's own text)
-            return "(" + r.choice(["d", "3d", "d优势", "d劣势", "2d", "dk", "3dk2", "(2)d"]) + ")"
+            return "(" + r.choice(["d", "3d", "d优势", "d劣势", "2d", "dk", "3dk2", "(2)d", "3dkl2", "4ddh2", "4ddl", "3dmin2", "2dmax3", "3dq", "2D", "3dkh1max50"]) + ")"
         if k < 0.55:
             t = r.choice(["", "2", "3", "4"])
             s = f"{t}{r.choice('dddD')}{r.choice([4, 6, 8, 20, 100])}"
